@@ -134,9 +134,18 @@ impl Sys for Sys13 {
                     break;
                 }
             }
-            if matches!(op, Op::Sleep | Op::Wake) && rig.ctl.slp_events.len() != n_slp + 1 {
-                bad = Some(format!("{}/command-count|{} sleep commands were sent by one call", op.name(), rig.ctl.slp_events.len() - n_slp));
-                break;
+            if matches!(op, Op::Sleep | Op::Wake) {
+                // one command per call; none at all is fine when the controller already is in the requested state
+                // (a driver may skip a redundant sleep-in / sleep-out)
+                let sent = rig.ctl.slp_events.len() - n_slp;
+                if sent > 1 {
+                    bad = Some(format!("{}/command-count|{sent} sleep commands were sent by one call", op.name()));
+                    break;
+                }
+                if !diverged && rig.ctl.sleeping != want {
+                    bad = Some(format!("{}/controller-state|the call returned Ok after sending {sent} sleep command(s) but the controller is {}", op.name(), if rig.ctl.sleeping { "asleep" } else { "awake" }));
+                    break;
+                }
             }
             if !matches!(op, Op::Sleep | Op::Wake) && rig.ctl.slp_events.len() != n_slp {
                 bad = Some(format!("{}/unexpected-sleep-command|a non-sleep call sent a sleep-in/out command", op.name()));
